@@ -140,3 +140,6 @@ pub open spec fn all_have_key(val: Seq<Value>, a: Seq<char>) -> bool { forall|i:
 /// R19 at the call site: `a.partial_cmp(b)` on Values (Some iff comparable)
 #[verifier::external_body]
 pub fn vx_value_partial_cmp(a: &Value, b: &Value) -> (r: Option<core::cmp::Ordering>) ensures r is Some == comparable(*a, *b) { unimplemented!() }
+/// `ensure_comparable(x.iter())` over a vector or a slice of values (contract: unit obligation collections/ensure_comparable)
+#[verifier::external_body]
+pub fn vx_ensure_comparable_seq(v: &[Value]) -> (r: TeraResult<()>) ensures r is Ok == adjacent_comparable(v@) { unimplemented!() }
